@@ -128,9 +128,14 @@ extern EnvState env;
 struct ClockState {
   bool active = false;
   int64_t now = 1790000000;   // seconds since the epoch handed to every clock_gettime/gettimeofday/time call in the process while active (2026-09-21)
+  int64_t skew = 0;           // added for the real-time clocks only (they may jump backwards; the monotonic ones never do)
   int64_t reads = 0;
 };
 extern ClockState clk;
+// Process credentials as the library could see them (getauxval(AT_SECURE), get[e]uid, get[e]gid, secure_getenv).
+// cctz consults none of them; a set-ID world must therefore behave exactly like a plain one.
+struct PrivState { bool active = false; bool secure = false; int64_t reads = 0; };
+extern PrivState priv;
 void fs_reset();
 // Path resolution of the simulated file system (collapses '//' and '/./', honours a trailing '/').
 const FsNode* fs_resolve(const std::string& path, int* err);
